@@ -16,7 +16,11 @@ from .. import exceptions
 def check(ctx, tier):
     obs = []
     obs += ctx.attempt(scanner.lang_sigil, ctx, "D-a", default=[])
-    o_s, n_s = ctx.attempt(sentinel.check, ctx, "D-b", default=([], 0))
+    # the data path of an N-Triples document: the line readers, the NT / TSV scanners and the token helpers they hand tokens to
+    o_s, n_s = ctx.attempt(sentinel.check, ctx, "D-b", modules=("shexer.io.graph.yielder.nt_", "shexer.io.graph.yielder.tsv_",
+                                                                "shexer.io.graph.yielder.multi_", "shexer.io.graph.yielder.base_",
+                                                                "shexer.io.line_reader", "shexer.utils.uri", "shexer.utils.triple_yielders"),
+                           default=([], 0))
     obs += o_s
     obs += ctx.attempt(scanner.datatype_scope, ctx, "D-c", default=[])
     o_t = ctx.attempt(scanner.literal_type_table, ctx, "D-c", default=[])
@@ -26,7 +30,7 @@ def check(ctx, tier):
     obs += ctx.attempt(scanner.nt_token_table, ctx, "D-e", default=[])
     obs += ctx.attempt(scanner.nt_document_table, ctx, "D-f", default=[])
     exceptions.apply(obs)
-    return {"obs": obs, "floors": [Floor("find/rfind sites examined", n_s, 30), Floor("literal datatype table rows", len(o_t), 8)],
+    return {"obs": obs, "floors": [Floor("find/rfind sites examined", n_s, 12), Floor("literal datatype table rows", len(o_t), 8)],
             "explanation": "Shape-of-the-code clauses of the hand-written N-Triples scanner: the language-tag sigil is '@' consistently in "
                            "predicate, guarded branch and datatype decision; every str.find/rfind result used as an index is protected by "
                            "a -1 comparison or an established presence (idioms enumerated); the datatype decision is tabulated over "
